@@ -253,6 +253,9 @@ var funcmap = FuncMap{
 			if b, ok := x.Member(k).(Bool); ok {
 				boolval := b.True()
 				res = append(res, Attribute{Name: k, Val: JavaScriptExpression(x.Member(k).String()), MustEscape: true, BoolVal: &boolval})
+			} else if _, ok := x.Member(k).(Nil); ok {
+				boolval := false
+				res = append(res, Attribute{Name: k, MustEscape: true, BoolVal: &boolval})
 			} else if k == "class" {
 				res = append(res, Attribute{Name: k, Val: JavaScriptExpression(classNames(x.Member(k))), MustEscape: true})
 			} else {
